@@ -137,3 +137,20 @@ def h_message():
     e = sym_str("ext")
     exc = commands.ExtensionNotLoaded(e)
     prove(str(exc) == "extension '" + e + "' not loaded", "msg.extension-not-loaded")
+
+
+def h_complete_cb_missing():
+    """`require;` : the callback runs without the argument; it must not raise and must load nothing"""
+    cmd = commands.RequireCommand(None)
+    loaded = sym_set("loaded")
+    commands.RequireCommand.loaded_extensions = loaded
+    kind = "return"
+    try:
+        cmd.complete_cb()
+    except commands.CommandError:
+        kind = "CommandError"
+    except Exception as e:
+        kind = "crash"
+        note("exception", type(e).__name__)
+    prove(kind != "crash", "X.complete_cb.tolerates-missing-argument")
+    prove(commands.RequireCommand.loaded_extensions is loaded, "X.complete_cb.loads-nothing-without-argument")
